@@ -11,6 +11,7 @@ import (
 	"encoding/hex"
 	"fmt"
 	"io"
+	"log"
 	"math"
 	"net"
 	"os"
@@ -19,6 +20,8 @@ import (
 	"runtime/debug"
 	"sort"
 	"strings"
+	"sync/atomic"
+	"syscall"
 	"time"
 
 	cptv "github.com/TheCacophonyProject/go-cptv"
@@ -31,6 +34,7 @@ import (
 func init() { verifStreams["e2e"] = verifStream{gen: genE2E, run: runE2E} }
 
 func runE2E(in *bufio.Scanner, w *bufio.Writer) {
+	log.SetOutput(vLogTap{})
 	work := os.Getenv("VERIF_WORKDIR")
 	if work == "" {
 		work = os.TempDir()
@@ -63,6 +67,14 @@ func runE2E(in *bufio.Scanner, w *bufio.Writer) {
 			tomlHex := vKv(f, "toml")
 			toml, _ := hex.DecodeString(tomlHex)
 			text := strings.ReplaceAll(string(toml), "@OUT@", out)
+			if strings.Contains(text, "@FREE-") {
+				// the free space of the output file system, in the unit of min-disk-space-mb: 2 % below / above it
+				var fs syscall.Statfs_t
+				syscall.Statfs(out, &fs)
+				free := fs.Bavail * uint64(fs.Bsize) / 1024 / 1024
+				text = strings.ReplaceAll(text, "@FREE-BELOW@", fmt.Sprint(free-free/50))
+				text = strings.ReplaceAll(text, "@FREE-ABOVE@", fmt.Sprint(free+free/50+1))
+			}
 			os.WriteFile(filepath.Join(dir, "config.toml"), []byte(text), 0644)
 			conf, err := ParseConfig(dir)
 			if err != nil {
@@ -204,6 +216,8 @@ func vReportConn(w *bufio.Writer, done chan error) {
 	case <-time.After(30 * time.Second):
 		fmt.Fprintln(w, "< conn hang")
 	}
+	// how often the daemon reported a bad frame on this connection (log line + event + camera restart request)
+	fmt.Fprintf(w, "< badreports %d\n", atomic.SwapInt64(&vBadReports, 0))
 	if headerInfo != nil {
 		fmt.Fprintf(w, "< header resx=%d resy=%d fps=%d framesize=%d brand=%s model=%s serial=%d firmware=%s\n",
 			headerInfo.ResX(), headerInfo.ResY(), headerInfo.FPS(), headerInfo.FrameSize(),
@@ -215,6 +229,18 @@ func vReportConn(w *bufio.Writer, done chan error) {
 }
 
 func f32bits(x float32) uint32 { return math.Float32bits(x) }
+
+var vBadReports int64
+
+// vLogTap counts the daemon's "bad frame" log lines; everything else is dropped
+type vLogTap struct{}
+
+func (vLogTap) Write(p []byte) (int, error) {
+	if strings.Contains(string(p), "bad frame") {
+		atomic.AddInt64(&vBadReports, 1)
+	}
+	return len(p), nil
+}
 
 func vDumpDir(w *bufio.Writer, dir, label string) {
 	ents, _ := os.ReadDir(dir)
@@ -294,6 +320,8 @@ type e2eCfg struct {
 	devID                                                               int
 	devName                                                             string
 	lat, lon, alt, acc                                                  float32
+	locMode, diskNear                                                   int
+	tickBad                                                             int // a bad frame exactly on the frame the periodic frame-count log line is printed for
 	serial                                                              int
 	firmware                                                            string
 	model                                                               string
@@ -307,9 +335,24 @@ func b2s(x int) string {
 }
 
 func (c e2eCfg) toml() string {
-	disk := 0
+	// min-disk-space-mb: 0 / far beyond any disk, or measured at run time just below / just above the free space
+	disk := "0"
 	if c.diskOk == 0 {
-		disk = 4000000000
+		disk = "4000000000"
+	}
+	if c.diskNear == 1 {
+		disk = "@FREE-BELOW@"
+		if c.diskOk == 0 {
+			disk = "@FREE-ABOVE@"
+		}
+	}
+	// [location]: complete, absent, or latitude only (what is not configured is zero in the file header)
+	loc := fmt.Sprintf("[location]\nlatitude = %v\nlongitude = %v\naltitude = %v\naccuracy = %v\n", c.lat, c.lon, c.alt, c.acc)
+	switch c.locMode {
+	case 1:
+		loc = ""
+	case 2:
+		loc = fmt.Sprintf("[location]\nlatitude = %v\n", c.lat)
 	}
 	win := "start-recording = \"12:00\"\nstop-recording = \"12:00\"\n"
 	if c.windowSet == 1 {
@@ -331,24 +374,19 @@ func (c e2eCfg) toml() string {
 	return fmt.Sprintf(`[device]
 id = %d
 name = "%s"
-[location]
-latitude = %v
-longitude = %v
-altitude = %v
-accuracy = %v
-[thermal-recorder]
+%s[thermal-recorder]
 output-dir = "@OUT@"
 min-secs = %d
 max-secs = %d
 preview-secs = %d
-min-disk-space-mb = %d
+min-disk-space-mb = %s
 constant-recorder = %s
 %s[thermal-throttler]
 activate = %s
 bucket-size = "%ds"
 min-refill = "100h"
 [windows]
-%s`, c.devID, c.devName, c.lat, c.lon, c.alt, c.acc, c.min, c.max, c.preview, disk, b2s(c.constOn),
+%s`, c.devID, c.devName, loc, c.min, c.max, c.preview, disk, b2s(c.constOn),
 		motion, b2s(c.throttle), c.bucketSecs, win)
 }
 
@@ -375,6 +413,13 @@ func genE2E(r *vRng, tier string, w *bufio.Writer) {
 			serial: r.pick(0, 1234, 99999), firmware: []string{"1.2.3", "3.3.26", "v9"}[r.intn(3)]}
 		c.min = r.pick(0, 1, 2)
 		c.max = c.min + r.pick(0, 1, 2)
+		c.diskNear = r.pick(0, 1)
+		switch c.locMode = r.pick(0, 0, 1, 2); c.locMode {
+		case 1:
+			c.lat, c.lon, c.alt, c.acc = 0, 0, 0, 0
+		case 2:
+			c.lon, c.alt, c.acc = 0, 0, 0
+		}
 		if c.preview*c.fps+c.trig == 0 {
 			c.trig = 1
 		}
@@ -398,6 +443,9 @@ func genE2E(r *vRng, tier string, w *bufio.Writer) {
 			c.dyn, c.windowSet, c.window, c.throttle, c.diskOk, c.constOn = 1, 1, 0, 0, 1, 0
 			c.power = r.pick(0, 1)
 			c.min, c.max, c.trig = r.pick(1, 2), 3, r.pick(0, 1, 2, 3)
+			if c.preview*c.fps+c.trig == 0 {
+				c.trig = 1 // a pre-trigger ring of capacity 0 is outside every property's quantifier (the daemon panics on the first frame)
+			}
 		}
 		if c.dyn == 1 {
 			switch r.intn(4) {
@@ -454,6 +502,9 @@ func genE2E(r *vRng, tier string, w *bufio.Writer) {
 			}
 			if conn > 0 {
 				fmt.Fprintln(w, "n")
+			}
+			if conn == 0 && id%4 == 1 && cc.fps <= 3 && cc.lepton == 0 {
+				cc.tickBad = 15 * cc.fps
 			}
 			if !headerDone {
 				headerDone = true
@@ -543,6 +594,10 @@ func genE2EConn(r *vRng, c e2eCfg, w *bufio.Writer, last bool) {
 	if c.lepton == 1 {
 		nItems = r.rng(6, 14)
 	}
+	if c.tickBad > 0 && nItems < c.tickBad+3 {
+		nItems = c.tickBad + 3
+	}
+	frameNo := 0
 	base := r.pick(2000, 3000, 3500, 5000)
 	if c.motionDefaults == 1 {
 		base = 30000
@@ -556,7 +611,7 @@ func genE2EConn(r *vRng, c e2eCfg, w *bufio.Writer, last bool) {
 	if tonMs > 200000 {
 		lastFFC = tonMs - 150000
 	}
-	for k := 0; k < nItems; k++ {
+	for k := 0; k < nItems || (c.tickBad > 0 && frameNo < c.tickBad+2); k++ {
 		x := r.intn(100)
 		if cooling && winNow == 0 && k == 6+c.trig && validCount > 0 && len(stream) > 0 {
 			winNow = 1
@@ -578,6 +633,11 @@ func genE2EConn(r *vRng, c e2eCfg, w *bufio.Writer, last bool) {
 			continue
 		}
 		bad := x < 14
+		frameNo++
+		forcedBad := c.tickBad > 0 && frameNo == c.tickBad
+		if forcedBad {
+			bad = true
+		}
 		if r.chance(50) {
 			hot = 1 - hot
 		}
@@ -633,7 +693,7 @@ func genE2EConn(r *vRng, c e2eCfg, w *bufio.Writer, last bool) {
 			}
 		}
 		if bad {
-			if r.chance(70) || c.edge == 0 {
+			if r.chance(70) || c.edge == 0 || forcedBad {
 				put((c.h/2)*c.w+c.w/2+1, 0)
 			} else {
 				put(0, 0)
